@@ -93,6 +93,7 @@ def motif_spec(name):
         # two topologies whose motifs have the same number of edges but different names
         "k3c3": dict(sizes=[3, 3], builds=[clique_motif, cycle_motif], names=["3-clique", "3-cycle"]),
         "k2k2": dict(sizes=[2, 2], builds=[clique_motif, clique_motif], names=["2-clique-red", "2-clique-blue"]),
+        "k3simple": dict(sizes=[3], builds=[simple_clique], names=["simple-3"]),
         "k3simple+k2": dict(sizes=[3, 2], builds=[simple_clique, clique_motif], names=["simple-3", "2-clique"]),
         "k2k3k2": dict(sizes=[2, 3, 2], builds=[clique_motif, clique_motif, clique_motif], names=["a", "b", "c"]),
     }
